@@ -29,7 +29,7 @@ ASSUMPTIONS = [
     "purely syntactic check of the returned tree; the meaning of the terms is judged by the other properties",
 ]
 BUDGET = {
-    "quick": dict(examples=600, shards=16, seconds=200),
+    "quick": dict(examples=1500, shards=16, seconds=200),
     "thorough": dict(examples=15000, shards=16, seconds=2400),
 }
 ALGS = ["id", "idc", "trso", "idstar", "idcstar"]
